@@ -43,7 +43,7 @@ fn jn(labels: &[Vec<u8>]) -> Value {
 fn random_zone(rng: &mut Rng, apex: &[Vec<u8>], target: usize) -> Vec<Value> {
     let mut ents: Vec<Value> = vec![];
     let mut total = 0usize;
-    let mut push = |ents: &mut Vec<Value>, n: &[Vec<u8>], t: u16, ttl: u32, cnt: u64, total: &mut usize| {
+    let push = |ents: &mut Vec<Value>, n: &[Vec<u8>], t: u16, ttl: u32, cnt: u64, total: &mut usize| {
         let low: Vec<Vec<u8>> = n.iter().map(|l| l.to_ascii_lowercase()).collect();
         if ents.iter().any(|e| e["low"] == jn(&low) && e["t"] == t) {
             return;
@@ -183,7 +183,8 @@ fn zones(path: &str, seed: u64, nzones: u64, minr: usize, maxr: usize) {
         let apex = name_of(&jn(&apex_l));
         let den = *rng.pick(&["nsec", "nsec", "nsec3", "optout", "none"]);
         let mode = if rng.chance(1, 5) { "into" } else { "inplace" };
-        let salt = if rng.chance(1, 2) { vec![] } else { rng.bytes(1 + rng.below(4) as usize) };
+        let slen = 1 + rng.below(4) as usize;
+        let salt = if rng.chance(1, 2) { vec![] } else { rng.bytes(slen) };
         let iters = rng.below(3) as u16;
         let nkeys = 1 + rng.below(2) as usize;
         let mut rks: Vec<RealKey> = (0..nkeys).map(|i| real_key(&apex, if i == 0 { 257 } else { 256 })).collect();
@@ -269,7 +270,7 @@ fn sorted(path: &str, seed: u64, nops: u64) {
         vec![b"zz".to_vec()], vec![b"a".to_vec()],
     ];
     let rec = |rng: &mut Rng| -> Value {
-        let n = jn(rng.pick(&owners));
+        let n = jn(rng.pick(&owners[..]).as_slice());
         match rng.below(3) {
             0 => json!({"n": n, "t": 1, "ttl": 60, "rd": [192, 0, 2, rng.below(6)]}),
             1 => json!({"n": n, "t": 16, "ttl": 300, "rd": [1, 97 + rng.below(4)]}),
@@ -296,14 +297,14 @@ fn sorted(path: &str, seed: u64, nops: u64) {
                 json!({"ev": "insert", "r": r, "ok": res["ok"]})
             }
             7 | 8 => {
-                let n = jn(rng.pick(&owners));
+                let n = jn(rng.pick(&owners[..]).as_slice());
                 let t = *rng.pick(&[0u16, 1, 16, 2]);
                 let res = apply_op(&mut c, &json!({"op": "remove_all", "n": n, "t": t, "class": rng.chance(1, 2)}));
                 json!({"ev": "remove_all", "n": n, "t": t, "res": res})
             }
             _ => {
                 // remove_first where at most one record matches
-                let n = jn(rng.pick(&owners));
+                let n = jn(rng.pick(&owners[..]).as_slice());
                 let t = *rng.pick(&[1u16, 16, 2]);
                 let name = name_of(&n);
                 let m = c.iter().filter(|r| r.owner().name_eq(&name) && r.rtype().to_int() == t).count();
